@@ -507,7 +507,17 @@ func (tdsChan *Channel) SendPackage(ctx context.Context, pkg Package) error {
 }
 
 func (tdsChan *Channel) sendPackets(ctx context.Context, onlyFull bool) error {
-	defer tdsChan.queueTx.DiscardUntilCurrentPosition()
+	// Only the sent packets are dropped from the queue, packets that
+	// are held back stay queued together with the write position.
+	sent := 0
+	defer func() {
+		tdsChan.queueTx.queue = tdsChan.queueTx.queue[sent:]
+		tdsChan.queueTx.indexPacket -= sent
+		if tdsChan.queueTx.indexPacket < 0 {
+			tdsChan.queueTx.indexPacket = 0
+			tdsChan.queueTx.indexData = 0
+		}
+	}()
 
 	for i, packet := range tdsChan.queueTx.queue {
 		select {
@@ -516,18 +526,22 @@ func (tdsChan *Channel) sendPackets(ctx context.Context, onlyFull bool) error {
 		case <-tdsChan.tdsConn.ctx.Done():
 			return fmt.Errorf("connection context is closed: %w", tdsChan.tdsConn.ctx.Err())
 		default:
-			// Only the last packet should not be full.
-			if i == tdsChan.queueTx.indexPacket && tdsChan.queueTx.indexData < tdsChan.tdsConn.PacketBodySize() {
+			// The packet the write position points to is the last
+			// packet of the message so far.
+			if i == tdsChan.queueTx.indexPacket {
 				if onlyFull {
-					// Packet is not exhausted and only exhausted packets
-					// should be sent. Return.
+					// The message may end with this packet, even if
+					// it is full - it must then carry the EOM flag.
+					// Keep it queued until more data is written or
+					// the remaining packets are sent.
 					return nil
 				}
 
-				// Packet is not exhausted but should be sent. Adjust header
-				// length
+				// Last packet of the message. Adjust header length
+				// and mark the end of the message.
 				packet.Header.Length = uint16(PacketHeaderSize + tdsChan.queueTx.indexData)
 				packet.Data = packet.Data[:tdsChan.queueTx.indexData]
+				packet.Header.Status |= TDS_BUFSTAT_EOM
 			}
 
 			// TODO maybe check if data is empty - could be an issue
@@ -535,6 +549,7 @@ func (tdsChan *Channel) sendPackets(ctx context.Context, onlyFull bool) error {
 			if err := tdsChan.sendPacket(packet); err != nil {
 				return fmt.Errorf("error sending packet %s: %w", packet, err)
 			}
+			sent++
 		}
 	}
 
